@@ -7,7 +7,7 @@ CONSTANTS
   Recvs = {"none", "const", "mut"}
   Rets = {"none", "u32", "ptr", "missing", "pvoid"}
   Addrs <- QAddrs
-  Seconds = {"none", "distinct", "dup", "inherited", "blockaddr", "twoaddr", "twoblocks", "implenum", "implmissing", "implenumbad"}
+  Seconds = {"none", "distinct", "dup", "inherited", "blockaddr", "twoaddr", "twoblocks", "twoblocksdup", "implenum", "implmissing", "implenumbad"}
   Bad = {0, 1, 2, 3, 4}
   Singles = {"none", "type", "enum", "enumnc", "opaque"}
   EvalKinds = {"none", "scalar", "ptr", "arr", "struct", "missing", "two", "readdr"}
